@@ -150,6 +150,11 @@ fn drive(s: &Scenario, driving: &str, r: &mut Rng) -> (Vec<(usize, u64)>, u64, u
         if done == s.play_at {
             emu.play_tape();
         }
+        // "toggles": the host flips its sound switches at run time, at frame boundaries ("whether sound generation is enabled")
+        if driving == "toggles" && done % 4 == 0 {
+            emu.set_sound(r.chance(1, 2));
+            emu.set_ay_enabled(r.chance(1, 2));
+        }
         let next_cut = (done / 4 + 1) * 4;
         let room = next_cut.min(s.frames) - done;
         // "mix": the host changes its way of driving between any two calls
@@ -254,7 +259,7 @@ pub fn run(args: &Args) {
     let base = args.num("base", 0);
     for k in base..base + scenarios {
         let s = scenario(&mut r, k, frames);
-        for driving in ["one", "one", "n", "n", "max1", "bp", "bp", "bp1", "bpn", "bpn", "mix", "mix", "soundoff", "ayoff", "nodrain", "chunk1", "chunk7", "file", "gzip"] {
+        for driving in ["one", "one", "n", "n", "max1", "bp", "bp", "bp1", "bpn", "bpn", "mix", "mix", "soundoff", "ayoff", "toggles", "nodrain", "chunk1", "chunk7", "file", "gzip"] {
             if std::env::var("VH_DEBUG").is_ok() { eprintln!("scenario {k} driving {driving}"); }
             let (d, audio, audio_n, stuck) = drive(&s, driving, &mut r);
             let digests: Vec<Value> = d.iter().map(|(f, h)| json!([f, split(*h)])).collect();
